@@ -51,7 +51,7 @@ def act(op, md=None, size=0, code=0, msg=None, det=0):
 def base(proto, shape, codec="proto", **kw):
     c = dict(proto=proto, shape=shape, codec=codec, comp="", opts=[], sizes=[3] if shape in ("unary", "sstream") else [3, 0],
              script=[], reqmd={}, reqwant={}, maxrecv=0, maxsend=0, sched=[], eofwith=False, trunc=0, trunck=0, timeout="",
-             accept="", tag="", binpad=False, exact=False)
+             accept="", tag="", binpad=False, exact=False, corrupt=False, boundary=0)
     c.update(kw)
     return c
 
@@ -171,6 +171,16 @@ def fam_limits(rnd, tier):
                                 c["replysize"] = size
                                 c["script"] = [act("send", size=max(size - 20, 0)), act("ret", code=0)]
                                 out.append(c)
+    # a message of many small records whose size limit falls exactly on a record boundary: an implementation that
+    # cuts the (decompressed) message at the limit still decodes something
+    for proto in ["http", "grpc", "grpcweb", "grpcwebtext"]:
+        for comp in ["", "gzip"]:
+            for over in [0, 1, 8, 992]:
+                for shape in ["unary", "cstream"]:
+                    c = base(proto, shape, codec="proto", comp=comp, tag="limits", boundary=over + 1)
+                    c["sizes"] = [0]
+                    c["script"] = recv_all(c) + ([act("send", size=1)] if shape != "unary" else []) + [act("ret", code=0)]
+                    out.append(c)
     rnd.shuffle(out)
     return out[: (3000 if tier == "quick" else 40000)]
 
@@ -199,6 +209,9 @@ def fam_md(rnd, tier):
                     if rnd.random() < 0.4:
                         hdr[rnd.choice(["grpc-status", "content-type", "grpc-message", "grpc-encoding", "grpc-status-details-bin", "trailer"])] = ["30"]
                     trl = {"x-t": ["9"], "x-tb-bin": [rnd.choice(bins[1:])]}
+                    if rnd.random() < 0.5:     # the same key as a header and as a trailer
+                        trl["x-h"] = ["late"]
+                        trl["x-hb-bin"] = [rnd.choice(bins[1:])]
                     order = rnd.choice(["hts", "hst", "sht", "ths"])
                     for ch in order:
                         if ch == "h":
@@ -227,6 +240,8 @@ def fam_opts(scripts, rnd, tier):
             for size in [-1, 0, 1, 4, 5, 6, 1000]:
                 for outcome in ["ok", "errbefore", "errafter"]:
                     c = base(proto, shape, codec=rnd.choice(["proto", "json"]), tag="opts")
+                    if proto != "http" and rnd.random() < 0.4:
+                        c["comp"] = "gzip"
                     c["sizes"] = [size] if shape in ("unary", "sstream") else [size, 0]
                     sc = recv_all(c)
                     if outcome == "errbefore":
@@ -373,6 +388,45 @@ def run(prop, tier, replay=None):
             consider(case, formula, json.loads(cache[sh][line - 1]))
         for cid, formula, e in extra_failed:
             consider(cid, formula, e)
+        ustat = collections.Counter()
+        if prop == "C06" and not replay:
+            # HttpBody chunk framing: uploads of every length around multiples of the chunk size, through Recv(),
+            # from readers that end with (0, EOF), with (n, EOF), one byte at a time, and through gzip
+            ups = []
+            for limit in ([16, 64] if tier == "quick" else [1, 2, 3, 16, 64, 200]):
+                for n in range(0, 4 * limit + 2):
+                    for mode in ["plain", "dataerr", "gzip", "onebyte"]:
+                        if tier == "quick" and n > 2 * limit + 3 and n % limit not in (0, 1, limit - 1):
+                            continue
+                        ups.append(dict(fam="upload", id=len(ups) + 1, len=n, limit=limit, mode=mode))
+            upath, utrace = scratch.path("uploads.jsonl"), scratch.path("uploads.ndjson")
+            with open(upath, "w") as f:
+                for u in ups:
+                    f.write(json.dumps(u) + "\n")
+            p, _ = C.run([harness, "conc", "-cases", upath, "-out", utrace, "-seed", str(seed), "-workers", "8"], timeout=3000)
+            if p.returncode != 0:
+                raise C.Infra("upload driver failed:\n" + p.stdout[-3000:])
+            nu = sum(1 for _ in open(utrace))
+            pr = C.validate_shards(scratch, "PoolTrace.tla", "PoolTrace.cfg", [(utrace, nu)], timeout=1800)[0]
+            ustat.update(pr["stat"])
+            ulines = open(utrace).read().splitlines()
+            for f in pr["failed"]:
+                ev = json.loads(ulines[f[1] - 1])
+                if f[2] not in ("UploadComplete", "ChunkLimit"):
+                    continue
+                sig = dict(module="Framing", formula=f[2], codec="body", mode=ev["mode"])
+                kf = C.match_finding(findings, prop, sig)
+                if kf:
+                    known[kf["id"]] += 1
+                    continue
+                key = (f[2], "http", "upload", "body", ev["mode"], None, False, False)
+                if key in viol:
+                    viol[key]["more"] += 1
+                    continue
+                viol[key] = dict(property=prop, formula=f[2], seed=seed, cases=[ups[ev["case"] - 1]], signature=sig, more=0, replay_driver="conc",
+                                 observed=dict(c=dict(tag="upload", proto="http", shape="upload", codec="body", comp=""), cl=dict(http=0, status=dict(present=False), msgs=[]),
+                                               h=dict(recv=[]), crash="upload of %d bytes, chunk %d, reader %s: %d chunks, %d bytes, complete=%s" % (
+                                                   ev["len"], ev["limit"], ev["mode"], ev["chunks"], ev["bytes"], ev["concat"])))
         for fid, n in sorted(known.items()):
             f = next(x for x in findings if x["id"] == fid)
             print("KNOWN-FINDING: property=%s %s (%d observations this run)" % (prop, f["what"], n))
@@ -399,6 +453,7 @@ def run(prop, tier, replay=None):
                          "and judged by TLC against Rpc!View. Non-trivial = RPCs in which the property's antecedent holds (failing handler / "
                          "streaming shape / limit set / metadata set / options installed)."),
                    samples=samples, exhaustive=False, **{k: v for k, v in stat.items() if k not in ("rpcs",)},
+                   httpbody_uploads=ustat["retains"], httpbody_chunks=ustat["chunks"], httpbody_bytes=ustat["bytes"],
                    known_findings=dict(known))
         C.write_evidence(prop, tier, "model_checking", cov,
                          ["direct drive through Mux.ServeHTTP with httptest (HTTP/2 framing for gRPC is emulated by ProtoMajor=2 and recorder trailers)",
